@@ -1,5 +1,5 @@
 (* C10 (round 6) -- clickhouse-go v2's CLIENT-SIDE bind (bind.go: bind / bindNumeric / bindPositional, format for a string;
-   query_parameters.go: bindQueryOrAppendParameters) for calls whose arguments are all plain (unnamed) STRINGS: what the driver makes
+   query_parameters.go: the entry point that chooses between native query parameters and bind) for calls whose arguments are all plain (unnamed) STRINGS: what the driver makes
    of (statement text, arguments) before the statement leaves the process.  Executable definitions only.
 
    Why it is here: the statement that reaches ClickHouse is not the text handed to ISqlxDB.QueryCtx.  Once the call has an argument the
